@@ -29,6 +29,7 @@ def evOf (tok : String) : Option Ev :=
   | ["a", t, pid, rcs, props, wf] => do pure (.rx ⟨← ackOf t, ← pid.toNat?, ← natList rcs, ← props.toNat?, wf = "1"⟩)
   | ["ok", op, rcs, props] => do pure (.doneOk (← op.toNat?) (← natList rcs) (← props.toNat?))
   | ["x", op] => do pure (.doneOther (← op.toNat?))
+  | ["Q"] => some .quiescent
   | _ => none
 
 def parse : List String → Except String (List Ev)
@@ -84,6 +85,7 @@ def why (s : S) : Ev → String
     | some (.sub, _) | some (.unsub, _) => "C14 (un)subscribe completed without error although no matching well-formed acknowledgement with these reason codes and properties was consumed after its request was written"
     | _ => "C01 publish completed without error although no matching final acknowledgement with this reason code and these properties was consumed after its PUBLISH was written"
   | .doneOther op => if s.isDone op then "C05 operation completed twice" else "model completion of an unknown operation"
+  | .quiescent => "C05 the client was cancelled / disconnected and the execution context ran out of work, but an initiated operation never completed"
   | _ => "model ?"
 
 def stateAt (s : S) : List Ev → Nat → S
